@@ -343,6 +343,59 @@ theorem absent_convF : ∀ (tfs : PFields) (lv : Lv) (sfs : PFields) (r d : Nat)
     rw [absent_convF tfs lv sfs r d pc hrest hr hR hd htd]
 end
 
+/-! ### unconditional column counts -/
+
+theorem zipApp_len_min : ∀ (A B : Cols), (zipApp A B).length = min A.length B.length
+  | [], _ => by simp [zipApp]
+  | _ :: _, [] => by simp [zipApp]
+  | a :: as, b :: bs => by simp [zipApp, zipApp_len_min as bs]
+
+theorem foldr_zip_len (m : Nat) (g : Val → Cols) (hg : ∀ w, (g w).length = m) : ∀ (ws : List Val),
+    (ws.foldr (fun w acc => zipApp (g w) acc) (List.replicate m [])).length = m
+  | [] => by simp
+  | w :: ws => by
+    simp only [List.foldr_cons]
+    rw [zipApp_len_min, hg w, foldr_zip_len m g hg ws]; simp
+
+mutual
+theorem shredN_len : ∀ (n : Node) (r k d : Nat) (v : Val), (shredN n r k d v).length = leavesN n
+  | .leaf, r, k, d, v => by cases v <;> simp [shredN, leavesN]
+  | .group fs, r, k, d, v => by
+    cases v with
+    | struct vs => simp only [shredN, leavesN]; exact shredF_len fs r k d vs
+    | prim _ => simp only [shredN, leavesN]; exact absentF_length fs r d
+    | none => simp only [shredN, leavesN]; exact absentF_length fs r d
+    | some _ => simp only [shredN, leavesN]; exact absentF_length fs r d
+    | list _ => simp only [shredN, leavesN]; exact absentF_length fs r d
+  | .opt n, r, k, d, v => by
+    cases v with
+    | some w => simp only [shredN, leavesN]; exact shredN_len n r k (d + 1) w
+    | prim _ => simp only [shredN, leavesN]; exact absentN_length n r d
+    | none => simp only [shredN, leavesN]; exact absentN_length n r d
+    | struct _ => simp only [shredN, leavesN]; exact absentN_length n r d
+    | list _ => simp only [shredN, leavesN]; exact absentN_length n r d
+  | .rpt n, r, k, d, v => by
+    cases v with
+    | list ws =>
+      cases ws with
+      | nil => simp only [shredN, leavesN]; exact absentN_length n r d
+      | cons w ws =>
+        simp only [shredN, leavesN]
+        rw [zipApp_len_min, shredN_len n r (k + 1) (d + 1) w,
+          foldr_zip_len (leavesN n) _ (fun w => shredN_len n (k + 1) (k + 1) (d + 1) w) ws]
+        simp
+    | prim _ => simp only [shredN, leavesN]; exact absentN_length n r d
+    | none => simp only [shredN, leavesN]; exact absentN_length n r d
+    | struct _ => simp only [shredN, leavesN]; exact absentN_length n r d
+    | some _ => simp only [shredN, leavesN]; exact absentN_length n r d
+theorem shredF_len : ∀ (fs : Fields) (r k d : Nat) (vs : List Val), (shredF fs r k d vs).length = leavesF fs
+  | .nil, _, _, _, _ => by simp [shredF, leavesF]
+  | .cons n fs, r, k, d, vs => by
+    cases vs with
+    | nil => simp [shredF, leavesF, absentN_length, absentF_length]
+    | cons v vs' => simp [shredF, leavesF, shredN_len n r k d v, shredF_len fs r k d vs']
+end
+
 /-! ### the conversion distributes over the concatenation of list elements -/
 
 mutual
